@@ -4,10 +4,11 @@ import MoneroModel.Proofs.KeccakLemmas
 import MoneroModel.Proofs.HashScalarSpec
 import MoneroModel.Proofs.KeccakSize
 import MoneroModel.Proofs.KeccakKat
+import MoneroModel.Proofs.KeccakChecked
 /-! C17 — "Hashing is Keccak-256 with original padding; hash-to-scalar reduces modulo l".
 What is proved: the reduction `hs`, the padding rule and the block structure of the sponge of the reference (= model)
-function, and a handful of published Keccak-256 test vectors by kernel evaluation (`decide +kernel`;
-these are tests of the reference, labelled so). What is NOT provable here: that `tiny-keccak` (which the library wraps) is
+function, that the reference equals a fully bounds-checked copy of itself (`C17_bounds_checked`), and a handful of published
+Keccak-256 test vectors by kernel evaluation (`decide +kernel`; these are tests of the reference, labelled so). What is NOT provable here: that `tiny-keccak` (which the library wraps) is
 Keccak-f[1600] on all inputs — that part of the property is decided by conformance (Drv/C17 + harness/src/c17.rs). -/
 namespace C17
 open Monero Monero.HashScalar Keccak Ed
@@ -58,10 +59,12 @@ to a 32-byte string, as in the Rust type `[u8; 32]` -/
 theorem C17_keccak_len (m : Bytes) : (keccak256 m).length = 32 ∧ (hashNew m).length = 32 := by
   simp [keccak256, hashNew]
 
-/-- `Hash::hash_to_scalar` at the library's own hash (`C17_hash_to_scalar` instantiated, nothing left generic): the model hash IS the
-reference Keccak-256, its digest has 32 bytes and value below 2^256, the scalar is the little-endian value of that digest modulo
-`l`, it is reduced, its 32-byte encoding is what the independently written `Spec.HashScalar.scalarOfDigest` yields on the Keccak
-digest, and the encoding equals the digest exactly when the digest was already below `l`. -/
+/-- COROLLARY of `C17_hs` / `C17_hs_spec` / `C17_keccak_len` at `d = keccak256 m` — no information beyond them; it only spells out what
+they give for `Hash::hash_to_scalar` of the model, whose hash `hashNew` is BY DEFINITION the reference Keccak-256 (conjuncts 1 and 4 are
+`rfl`; that the library's `keccak_256` is this function is decided by conformance, not here): the digest has 32 bytes and value below
+2^256, the scalar is the little-endian value of that digest modulo `l`, it is reduced, its 32-byte encoding is what the independently
+written `Spec.HashScalar.scalarOfDigest` yields on the Keccak digest, and the encoding equals the digest exactly when the digest was
+already below `l` (both sides occur: the examples at the end of the file). -/
 theorem C17_hash_to_scalar_keccak (m : Bytes) :
     hashNew m = keccak256 m ∧ (hashNew m).length = 32 ∧ leNat (keccak256 m) < 2 ^ 256 ∧
     hashToScalar hashNew m = leNat (keccak256 m) % Ed.l ∧ hashToScalar hashNew m < Ed.l ∧
@@ -73,10 +76,14 @@ theorem C17_hash_to_scalar_keccak (m : Bytes) :
   refine ⟨rfl, (C17_keccak_len m).2, (C17_le_roundtrip.2 _ hlen).2, rfl, h.1, ?_, h.2.2.2.1, h.2.2.2.2.1, h.2.2.2.2.2 hlen⟩
   rw [C17_hs_spec]; rfl
 
-/-- the provided trait method `Hashable::hash_to_scalar` (hash.rs:111-113), for EVERY implementor (given by its `hash`): it is
-`as_scalar` of the value's own hash — one hash, one reduction —, equal to the independent statement applied to that hash, 32 bytes
-long, encoding `LE(hash x) mod l`; on a `PublicKey` (hash = Keccak of the key bytes) it coincides with `Hash::hash_to_scalar` of
-the key bytes. -/
+/-- UNFOLDING of the model definition `hashableToScalarBytes hash x := hsBytes (hash x)` (Model/HashScalar.lean; the model of the provided
+trait method `Hashable::hash_to_scalar`, hash.rs:111-113, `self.hash().as_scalar()`), with `C17_hs` / `C17_hs_spec` re-instantiated at
+`d = hash x`: conjuncts 1 and 6 hold by `rfl`, 2-5 are `C17_hs (hash x)`. It is a statement about that one-line definition, for an arbitrary
+function `hash`; it says nothing about what `hash()` of a `PublicKey` / `Transaction` / … is (the last conjunct merely instantiates
+`hash := hashNew`), and no change of the Rust can make it fail. That the provided method of the LIBRARY is this function — one hash, one
+reduction, on every implementor — is decided differentially (ops `c17_trait_hs`, `c17_trait_hs_tx`, and the direct check
+`x.hash_to_scalar() == x.hash().as_scalar()` of harness/src/c17.rs). Kept because the last `example` of the file uses it to show that a
+method hashing twice is a different function. -/
 theorem C17_hashable_hash_to_scalar {α : Type} (hash : α → Bytes) (x : α) :
     hashableToScalarBytes hash x = hsBytes (hash x) ∧
     hashableToScalarBytes hash x = Spec.HashScalar.scalarOfDigest (hash x) ∧
@@ -133,15 +140,33 @@ can map different messages to one digest is the compression by the sponge itself
 theorem C17_pad_injective (a b : Bytes) (h : pad a = pad b) : a = b := pad_injective a b h
 
 /-- the number of lanes is invariant: XOR-ing a block in and the permutation keep the size of ANY state array, so the state of the
-reference sponge has exactly 25 lanes after absorbing any padded message, and the lane indices of the pi step are below 25. Together
-with the literal index ranges of `Ref/Keccak.lean` (`i+20`, `j*5+i`, `j*5+4` with `i, j < 5`; block byte `i < 136` goes to lane
-`i/8 ≤ 16`; the digest reads lanes `0..3`) this means that no totalised accessor `st[i]!` / `set!` of the reference ever falls back
-to its out-of-bounds behaviour: `C17_absorb_step` / `C17_absorb_blocks` speak about genuine 25-lane states. -/
+reference sponge has exactly 25 lanes after absorbing any padded message; the lane indices of the pi step are below 25 and the three
+tables have 24 entries. This is only the PREREQUISITE of the next theorem (it supplies its hypothesis `st.size = 25` along `absorb`):
+by itself it says nothing about the indices used by `st[i]!` / `set!` — an out-of-range `set!` preserves the size too. -/
 theorem C17_state_size (m : Bytes) :
     (absorb (Array.replicate 25 0) (pad m)).size = 25 ∧
     (∀ st : Array UInt64, (f1600 st).size = st.size) ∧ (∀ (st : Array UInt64) (blk : Bytes), (xorBlock st blk).size = st.size) ∧
     (∀ i ∈ piln.toList, i < 25) ∧ piln.size = 24 ∧ rotc.size = 24 ∧ rc.size = 24 :=
   ⟨state_size _, f1600_size, xorBlock_size, by decide, rfl, rfl, rfl⟩
+
+/-- NO totalised accessor of the reference falls back. `Ref/Keccak.lean` reads and writes lanes with `st[i]!` / `st.set! i x` / `rc[r]!`
+(out of range: read 0, write dropped). `Proofs/KeccakChecked.lean` writes the same algorithm over `State = Vector UInt64 25` with the
+proof-carrying accessors `v[i]'h` / `v.set i x h` ONLY — `roundV`, `f1600V`, `xorBlockV`, `digestV`, `absorbV`, `keccak256V` are
+accepted by Lean only because every index is proved in range (`i+20`, `j*5+i`, `j*5+4` for `i, j < 5`; `piln[i] < 25`; block byte
+`i < 200` ↦ lane `i/8 < 25`; digest byte `i < 32` ↦ lane `i/8 < 4`; `rc[r]`, `rotc[i]`, `piln[i]` for `r, i < 24`). Proved: on a state
+with 25 lanes, one round (round number below 24), the permutation, the XOR of a block of at most 200 bytes (the sponge uses 136) and
+the squeezing step of the reference ARE the checked functions; `absorb` from a 25-lane state is the checked absorption for every input;
+and for EVERY message `keccak256 m = keccak256V m`. The hypotheses are needed: with fewer lanes the reference does fall back (second
+example at the end of the file). -/
+theorem C17_bounds_checked :
+    (∀ (st : Array UInt64) (hs : st.size = 25) (r : Nat) (hr : r < 24), round st r = (roundV ⟨st, hs⟩ (rc[r]'hr)).toArray) ∧
+    (∀ (st : Array UInt64) (hs : st.size = 25), f1600 st = (f1600V ⟨st, hs⟩).toArray) ∧
+    (∀ (st : Array UInt64) (hs : st.size = 25) (blk : Bytes) (hb : blk.length ≤ 200), xorBlock st blk = (xorBlockV ⟨st, hs⟩ blk hb).toArray) ∧
+    (∀ (st : Array UInt64) (hs : st.size = 25), digestOf st = digestV ⟨st, hs⟩) ∧
+    (∀ (v : State) (m : Bytes), absorb v.toArray m = (absorbV v m).toArray) ∧
+    (∀ m : Bytes, keccak256 m = keccak256V m) :=
+  ⟨round_checked, f1600_checked, xorBlock_checked, digest_checked,
+   fun v m => absorb_checked m.length m v (Nat.le_refl _), keccak256_checked⟩
 
 /-- the whole reference function in one statement: pad (original Keccak rule), cut into `⌊|m|/136⌋ + 1` blocks of 136 bytes, fold
 "XOR the block in, permute" over them from the all-zero 25-lane state, output the first 32 bytes of the state (lanes little-endian) -/
@@ -172,23 +197,28 @@ theorem C17_kats_abc : keccak256 [97,98,99] =
 theorem C17_kats_fox : keccak256 [84,104,101,32,113,117,105,99,107,32,98,114,111,119,110,32,102,111,120,32,106,117,109,112,115,32,111,118,101,114,32,116,104,101,32,108,97,122,121,32,100,111,103] =
     [0x4d,0x74,0x1b,0x6f,0x1e,0xb2,0x9c,0xb2,0xa9,0xb9,0x91,0x1c,0x82,0xf5,0x6f,0xa8,0xd7,0x3b,0x04,0x95,0x9d,0x3d,0x9d,0x22,0x28,0x95,0xdf,0x6c,0x0b,0x28,0xaa,0x15] := kat_fox
 
-/-- two-block vector: 200 bytes 0xa3 (regression value — agreed on by tiny-keccak and the reference; not a published vector) -/
+/-- two-block vector: 200 bytes 0xa3 (regression value on which tiny-keccak, the table-free Rust Keccak of harness/src/c17.rs and this
+reference agree — every harness run hashes this message with all three, family `kat`; not a published vector) -/
 theorem C17_kats_two_blocks : keccak256 (List.replicate 200 0xa3) =
     [0x3a,0x57,0x66,0x6b,0x04,0x87,0x77,0xf2,0xc9,0x53,0xdc,0x44,0x56,0xf4,0x5a,0x25,0x88,0xe1,0xcb,0x6f,0x2d,0xa7,0x60,0x12,0x2d,0x53,0x0a,0xc2,0xce,0x60,0x7d,0x4a] := kat_two_blocks
 
 /-- NIST example values for SHA3-256 (empty message; 200 bytes 0xa3 = two blocks) reproduced by the reference sponge when only the
 first pad byte is 0x06 instead of 0x01 (`Keccak.sha3_256` uses the SAME `absorb`, `xorBlock`, `f1600` and squeezing as `keccak256`): a
 published multi-block vector, from outside tiny-keccak, behind the permutation and the block-wise absorption (a test by kernel
-evaluation; the padding itself is covered for every message by `C17_pad_shape`) -/
+evaluation; the padding itself is covered for every message by `C17_pad_shape`). "Only the first pad byte differs" is the last
+conjunct: for every message the SHA-3 padded string is `pad m` with the bits 0x07 of the byte at position `|m|` flipped (0x01 ↦ 0x06,
+0x81 ↦ 0x86), that position being inside `pad m`. -/
 theorem C17_kats_sha3_nist :
     sha3_256 [] = [0xa7,0xff,0xc6,0xf8,0xbf,0x1e,0xd7,0x66,0x51,0xc1,0x47,0x56,0xa0,0x61,0xd6,0x62,0xf5,0x80,0xff,0x4d,0xe4,0x3b,0x49,0xfa,0x82,0xd8,0x0a,0x4b,0x80,0xf8,0x43,0x4a] ∧
     sha3_256 (List.replicate 200 0xa3) = [0x79,0xf3,0x8a,0xde,0xc5,0xc2,0x03,0x07,0xa9,0x8e,0xf7,0x6e,0x83,0x24,0xaf,0xbf,0xd4,0x6c,0xfd,0x81,0xb2,0x2e,0x39,0x73,0xc6,0x5f,0xa1,0xbd,0x9d,0xe3,0x17,0x87] ∧
     (∀ m : Bytes, sha3_256 m = digestOf (absorb (Array.replicate 25 0) (padSha3 m))) ∧
-    (∀ m : Bytes, keccak256 m = digestOf (absorb (Array.replicate 25 0) (pad m))) :=
-  ⟨sha3_256_empty, sha3_256_nist_1600, fun _ => rfl, keccak256_eq⟩
+    (∀ m : Bytes, keccak256 m = digestOf (absorb (Array.replicate 25 0) (pad m))) ∧
+    (∀ m : Bytes, m.length < (pad m).length ∧ padSha3 m = (pad m).set m.length ((pad m)[m.length]! ^^^ 0x07)) :=
+  ⟨sha3_256_empty, sha3_256_nist_1600, fun _ => rfl, keccak256_eq, padSha3_eq⟩
 
 /-- 135-byte message 0,1,…,134: the single-pad-byte (0x81) branch evaluated in the kernel (regression value on which tiny-keccak, the
-table-free Rust Keccak of harness/src/c17.rs and this reference agree; not a published vector) -/
+table-free Rust Keccak of harness/src/c17.rs and this reference agree — every harness run hashes this message with all three, family
+`kat`; not a published vector) -/
 theorem C17_kats_len135 : keccak256 ((List.range 135).map UInt8.ofNat) =
     [0xcb,0xdf,0xd9,0xde,0xe5,0xfa,0xad,0x38,0x18,0xd6,0xb0,0x6f,0x95,0xa2,0x19,0xfd,0x29,0x0b,0x0e,0x17,0x06,0xf6,0xa8,0x2e,0x5a,0x59,0x5b,0x9c,0xe9,0xfa,0xca,0x62] :=
   keccak256_len135
@@ -196,6 +226,21 @@ theorem C17_kats_len135 : keccak256 ((List.range 135).map UInt8.ofNat) =
 /-- hypotheses are satisfiable / the statements are not vacuous: a digest ≥ l is really reduced, one below is not -/
 example : hs (toBytesLE (Ed.l + 5) 32) = 5 := by decide +kernel
 example : hsBytes (List.replicate 32 0xff) ≠ List.replicate 32 0xff := by decide +kernel
+set_option maxRecDepth 100000 in
+/-- both sides of the `↔` of `C17_hash_to_scalar_keccak` occur at Keccak digests: the digest of the one-byte message 0x0b is below `l`
+(it is its own scalar), the digest of the empty message is not -/
+example : leNat (keccak256 [11]) < Ed.l ∧ hashToScalarBytes hashNew [11] = keccak256 [11] ∧
+    ¬ leNat (keccak256 []) < Ed.l ∧ hashToScalarBytes hashNew [] ≠ keccak256 [] := by
+  have h1 : leNat (keccak256 [11]) < Ed.l := by decide +kernel
+  have h2 : ¬ leNat (keccak256 []) < Ed.l := by rw [kat_empty]; decide +kernel
+  exact ⟨h1, (C17_hash_to_scalar_keccak [11]).2.2.2.2.2.2.2.2.mpr h1, h2, fun h => h2 ((C17_hash_to_scalar_keccak []).2.2.2.2.2.2.2.2.mp h)⟩
+/-- the hypotheses of `C17_bounds_checked` are satisfiable (the initial state; every state reached by `C17_state_size`) … -/
+example : (Array.replicate 25 (0 : UInt64)).size = 25 ∧ (List.replicate 136 (0xff : UInt8)).length ≤ 200 := by simp
+set_option maxRecDepth 100000 in
+/-- … and needed: on a 16-lane array the totalised reference DOES fall back — the last 8 bytes of a 136-byte block (lane 16) are silently
+dropped, and a read of lane 20 yields 0 —, which is what `C17_bounds_checked` excludes for 25 lanes -/
+example : xorBlock (Array.replicate 16 0) (List.replicate 136 0xff) = xorBlock (Array.replicate 16 0) (List.replicate 128 0xff) ∧
+    (Array.replicate 16 (1 : UInt64))[20]! = 0 := by decide +kernel
 set_option maxRecDepth 100000 in
 /-- `C17_hashable_hash_to_scalar` is not satisfied by a method that hashes again before reducing (the two differ on the empty key) -/
 example : hashableToScalarBytes hashNew [] ≠ hsBytes (hashNew (hashNew [])) := by
